@@ -124,6 +124,8 @@ Proof. reflexivity. Qed.
 Lemma bind_eof : forall k st, bind eof k st = k (if pos st >=? len st then 1 else 0) st.
 Proof. reflexivity. Qed.
 
+Ltac chs := repeat match goal with |- context [ch ?a] =>
+  let v := eval vm_compute in (ch a) in change (ch a) with v end.
 Ltac stsimpl :=
   unfold set_pos, set_len, set_out, set_typ, set_level, set_templates, set_type_info, set_first_name,
          set_ignore_disc, set_expected;
@@ -344,8 +346,6 @@ Proof.
 Qed.
 
 (* ================================================================ walking the parser *)
-Ltac chs := repeat match goal with |- context [ch ?a] =>
-  let v := eval vm_compute in (ch a) in change (ch a) with v end.
 
 (* clean parser state inside a name: type = templates = 0, no flags *)
 Definition NS (p : Z) (o : option (list Z)) (lv : Z) (fnm : bool) : state :=
@@ -787,6 +787,259 @@ Proof.
   cbn [hd0 Z.eqb]. rewrite bind_ret.
   unfold dec_level. rewrite bind_modify. stsimpl. reflexivity.
 Qed.
+
+(* ---- no '$' in a mangled name of the subset *)
+Lemma no_dollar_digits : forall ds, Forall (fun c => isdigit c = true) ds -> no_dollar ds.
+Proof. intros ds H. eapply Forall_impl; [| exact H ]. intros c Hc. apply isdigit_range in Hc. lia. Qed.
+Lemma no_dollar_ident : forall id, ident_okb id = true -> no_dollar id.
+Proof.
+  intros id H. unfold ident_okb in H. apply andb_prop in H. destruct H as [H _].
+  apply andb_prop in H. destruct H as [H _]. apply andb_prop in H. destruct H as [_ H].
+  rewrite forallb_forall in H. apply Forall_forall. intros x Hx. specialize (H x Hx).
+  unfold idchar, isdigit, isupper, islower in H. lia.
+Qed.
+Lemma no_dollar_src : forall id, ident_okb id = true -> no_dollar (src id).
+Proof.
+  intros id H. unfold src. apply Forall_app. split; [| apply no_dollar_ident; exact H ].
+  destruct (dec_spec _ (ident_len id H)) as [ds [E1 [E2 _]]]. rewrite E1. apply no_dollar_digits. exact E2.
+Qed.
+Lemma no_dollar_srcs : forall cs, Forall (fun id => ident_okb id = true) cs -> no_dollar (srcs cs).
+Proof.
+  induction cs as [| id cs IH]; intros H; [ constructor |].
+  inversion H; subst. unfold srcs. cbn [map List.concat]. apply Forall_app. split.
+  - apply no_dollar_src. assumption.
+  - apply IH. assumption.
+Qed.
+Lemma no_dollar_last : forall l, last_okb l = true -> no_dollar (last_enc l).
+Proof.
+  intros l H. destruct l as [| kd | kd | c0 c1]; cbn [last_enc last_okb] in *.
+  - constructor.
+  - apply isdigit_range in H. repeat constructor; lia.
+  - apply isdigit_range in H. repeat constructor; lia.
+  - apply andb_prop in H. destruct H as [H _]. apply andb_prop in H. destruct H as [H1 H2].
+    unfold op_okb in H1. apply andb_prop in H1. destruct H1 as [H1 _]. apply andb_prop in H1. destruct H1 as [H1 _].
+    unfold islower, isupper in *. repeat constructor; lia.
+Qed.
+Lemma no_dollar_params : forall ps, forallb is_builtin ps = true -> no_dollar ps.
+Proof.
+  intros ps H. rewrite forallb_forall in H. apply Forall_forall. intros x Hx.
+  destruct (builtin_facts x (H x Hx)) as [_ [_ [_ [_ [_ [_ [_ [_ [_ [_ [_ [_ [_ F]]]]]]]]]]]]]. exact F.
+Qed.
+
+
+(* ---- Rust legacy: the trailing 17h<16 hex digits> component is dropped *)
+Definition hash_okb (h : list Z) : bool := (Nat.eqb (List.length h) 17) && hash17 h.
+
+Lemma source_name_hash_at : forall p o lv fnm h rest,
+  At p (str "17" ++ h ++ rest) -> hash_okb h = true -> L <= INT_MAX ->
+  dd_source_name s 0 (NS p o lv fnm) = R 0 (NS (p + 19) o lv fnm).
+Proof.
+  intros p o lv fnm h rest H Hh HL.
+  unfold hash_okb in Hh. apply andb_prop in Hh. destruct Hh as [Hlen Hh]. apply Nat.eqb_eq in Hlen.
+  assert (Hd17 : dec 17 = str "17") by (vm_compute; reflexivity).
+  assert (Hnd : starts_nondigit (h ++ rest)).
+  { destruct h as [| h0 h']; [ discriminate |]. cbn. unfold hash17 in Hh.
+    apply andb_prop in Hh. destruct Hh as [Hh _]. apply andb_prop in Hh. destruct Hh as [Hh _].
+    apply Z.eqb_eq in Hh. subst h0. reflexivity. }
+  unfold dd_source_name, NS.
+  assert (H' : At p (dec 17 ++ h ++ rest)) by (rewrite Hd17; exact H).
+  erewrite bind_R; [| apply (number_at _ 17 (h ++ rest)); [ exact H' | reflexivity | lia | exact Hnd ] ].
+  clear H'. apply (At_app _ (str "17")) in H. rewrite Hd17. cbn [str List.length] in H. stsimpl. cbn [List.length str].
+  replace (p + Z.of_nat 2) with (p + 2) in * by lia.
+  assert (Hp : p + 2 + 17 <= L).
+  { destruct H as [_ [_ H2]]. rewrite app_length in H2. lia. }
+  cbn [Z.ltb Z.compare].
+  rewrite bind_eof. stsimpl. rwf (p + 2 >=? L). rewrite bind_gets, bind_gets. stsimpl. cbn [Z.eqb].
+  rwf (p + 2 + 17 >? INT_MAX). rwf (p + 2 + 17 >? L).
+  rewrite bind_gets, bind_getb, bind_gets. stsimpl. cbn [Z.eqb negb andb orb Pos.eqb].
+  destruct H as [H0 [H1 H2]]. rewrite H1. rewrite hash17_app by exact Hlen. rewrite Hh.
+  erewrite bind_R.
+  2:{ apply (consume_n_at _ 17 (h ++ rest)); [ split; [ exact H0 | split; [ exact H1 | exact H2 ] ] | reflexivity |].
+      rewrite app_length. lia. }
+  stsimpl. unfold ret. replace (p + 2 + 17) with (p + 19) by lia. reflexivity.
+Qed.
+
+Lemma unq_hash : forall k p o lv fnm h rest,
+  At p (str "17" ++ h ++ rest) -> hash_okb h = true -> L <= INT_MAX -> hd0 rest <> 66 ->
+  run s 0 (S k) FUnqualifiedName (NS p o lv fnm) = R 0 (NS (p + 19) o lv fnm).
+Proof.
+  intros k p o lv fnm h rest H Hh HL HB.
+  cbn [run body]. unfold dd_unqualified_name. unfold NS at 1.
+  assert (Hc : At p (49 :: 55 :: h ++ rest)) by exact H.
+  erewrite bind_R; [| apply (curr_at _ (49 :: 55 :: h ++ rest)); [ exact Hc | reflexivity ] ].
+  erewrite bind_R; [| apply (peek1_at _ 49 (55 :: h ++ rest)); [ exact Hc | reflexivity ] ].
+  pose proof (At_lt _ _ _ Hc).
+  rewrite bind_eof. stsimpl. rwf (p >=? L). cbn [hd0]. chs. cbn [Z.eqb Pos.eqb orb].
+  unfold islower. cbn [Z.leb Z.compare Pos.compare Pos.compare_cont andb]. rewrite bind_ret.
+  fold (NS p o lv fnm).
+  erewrite bind_R; [| apply (source_name_hash_at p o lv fnm h rest); assumption ].
+  unfold NS at 1.
+  assert (H19 : At (p + 19) rest).
+  { apply (At_app _ (str "17")) in H. apply At_app in H.
+    unfold hash_okb in Hh. apply andb_prop in Hh. destruct Hh as [Hlen _]. apply Nat.eqb_eq in Hlen.
+    rewrite Hlen in H. cbn [List.length str] in H. replace (p + Z.of_nat 2 + Z.of_nat 17) with (p + 19) in H by lia. exact H. }
+  erewrite bind_R; [| apply (curr_at _ rest); [ exact H19 | reflexivity ] ].
+  rwf (hd0 rest =? 66). reflexivity.
+Qed.
+
+(* _ZN <source-name>+ 17h<hash> E *)
+Lemma rust_encoding_at : forall a cs h F,
+  s = str "_ZN" ++ srcs (a :: cs) ++ str "17" ++ h ++ [69] ->
+  Forall (fun id => ident_okb id = true) (a :: cs) -> hash_okb h = true ->
+  no_dollar (srcs (a :: cs) ++ str "17" ++ h ++ [69]) -> L <= INT_MAX ->
+  (List.length (a :: cs) + 8 <= F)%nat ->
+  run s 0 F FEncoding (st0 L) = R 0 (NS L (Some (join_sep (a :: cs))) 0 false).
+Proof.
+  intros a cs h F Hs Hok Hh Hnd HL HF.
+  set (comps := a :: cs) in *.
+  set (body := srcs comps ++ str "17" ++ h ++ [69]) in *.
+  assert (H0 : At 0 (95 :: 90 :: 78 :: body)).
+  { unfold At. split; [ lia |]. split; [ unfold suffix; cbn [Z.add Z.to_nat skipn]; rewrite Hs; reflexivity |].
+    unfold flen. rewrite Hs. cbn [str app List.length]. lia. }
+  pose proof (At_cons _ _ _ H0) as H1. pose proof (At_cons _ _ _ H1) as H2. cbn [Z.add Pos.add] in H1, H2.
+  assert (Hhl : List.length h = 17%nat).
+  { unfold hash_okb in Hh. apply andb_prop in Hh. destruct Hh as [Hlen _]. apply Nat.eqb_eq in Hlen. exact Hlen. }
+  assert (HLen : L = 3 + Z.of_nat (List.length (srcs comps)) + 19 + 1).
+  { destruct H0 as [_ [_ HH]]. cbn [List.length] in HH. unfold body in HH.
+    repeat rewrite app_length in HH. cbn [List.length str] in HH. lia. }
+  destruct F as [| F1]; [ lia |]. destruct F1 as [| F2]; [ lia |]. destruct F2 as [| F3]; [ lia |].
+  change (run s 0 (S (S (S F3))) FEncoding) with (dd_encoding s 0 (run s 0 (S (S F3)))).
+  unfold dd_encoding, st0.
+  pose proof (At_lt _ _ _ H0) as HL0.
+  rewrite bind_eof. stsimpl. rwf (0 >=? L). cbn [Z.eqb].
+  rewrite bind_gets. stsimpl. cbn [Z.eqb].
+  erewrite bind_R; [| apply (consume_n_at _ 2 (95 :: 90 :: 78 :: body)); [ exact H0 | reflexivity | cbn [List.length]; lia ] ].
+  stsimpl. cbn [Z.add]. unfold inc_level. rewrite bind_modify. stsimpl. cbn [Z.add].
+  erewrite bind_R; [| apply (curr_at _ (78 :: body)); [ exact H2 | reflexivity ] ].
+  cbn [hd0]. chs. cbn [Z.eqb Pos.eqb orb].
+  set (pe := 3 + Z.of_nat (List.length (srcs comps))).
+  assert (H3 : At pe (str "17" ++ h ++ [69])).
+  { unfold pe. apply (At_app _ (srcs comps)). apply At_cons in H2. exact H2. }
+  assert (H4 : At (pe + 19) [69]).
+  { apply At_app in H3. apply At_app in H3. rewrite Hhl in H3. cbn [List.length str] in H3.
+    replace (pe + Z.of_nat 2 + Z.of_nat 17) with (pe + 19) in H3 by lia. exact H3. }
+  assert (Hname : run s 0 (S (S F3)) FName (NS 2 None 1 true) = R 0 (NS L (Some (join_sep comps)) 1 false)).
+  { change (run s 0 (S (S F3)) FName) with (dd_name s 0 (run s 0 (S F3))).
+    unfold dd_name. unfold NS at 1.
+    erewrite bind_R; [| apply (curr_at _ (78 :: body)); [ exact H2 | reflexivity ] ].
+    pose proof (At_lt _ _ _ H2).
+    rewrite bind_eof. stsimpl. rwf (2 >=? L). cbn [hd0]. chs. cbn [Z.eqb Pos.eqb].
+    change (run s 0 (S F3) FNestedName) with (dd_nested_name s 0 (run s 0 F3)).
+    unfold dd_nested_name.
+    rewrite bind_eof. stsimpl. rwf (2 >=? L). cbn [Z.eqb].
+    unfold expect at 1. unfold consume.
+    erewrite bind_R; [| apply (consume_n_at _ 1 (78 :: body)); [ exact H2 | reflexivity | cbn [List.length]; lia ] ].
+    cbn [hd0]. chs. cbn [Z.eqb Pos.eqb]. stsimpl.
+    unfold inc_level. rewrite bind_modify. stsimpl. cbn [Z.add Pos.add].
+    fold (NS 3 None 2 true).
+    erewrite bind_R.
+    2:{ replace F3 with (List.length comps + S (S (S (F3 - List.length comps - 3))))%nat at 1 by (cbn [List.length] in *; lia).
+        rewrite (nested_comps comps _ 3 None 2 true (str "17" ++ h ++ [69])); try assumption.
+        - unfold comps at 2 3. rewrite out_after_start. cbn [fnm_after]. fold comps. fold pe.
+          change (run s 0 (S (S (S (F3 - List.length comps - 3)))) (LNested 0))
+            with (nested_loop s 0 (run s 0 (S (S (F3 - List.length comps - 3)))) 0).
+          unfold nested_loop. unfold NS at 1. cbn [str app] in H3.
+          erewrite bind_R; [| apply (curr_at _ (49 :: 55 :: h ++ [69])); [ exact H3 | reflexivity ] ].
+          pose proof (At_lt _ _ _ H3).
+          rewrite bind_eof. stsimpl. rwf (pe >=? L). cbn [hd0]. chs. cbn [Z.eqb Pos.eqb orb negb].
+          erewrite bind_R; [| apply (peek1_at _ 49 (55 :: h ++ [69])); [ exact H3 | reflexivity ] ].
+          cbn [andb orb]. unfold islower, isdigit.
+          cbn [Z.leb Z.compare Pos.compare Pos.compare_cont andb orb].
+          fold (NS pe (Some (join_sep comps)) 2 false).
+          erewrite bind_R; [| apply (unq_hash _ pe _ 2 false h [69]); [ exact H3 | exact Hh | exact HL | cbn; lia ] ].
+          apply (nested_end_plain _ (pe + 19) _ 2 false []). exact H4.
+        - apply At_cons in H2. exact H2.
+        - cbn. lia. }
+    unfold expect. unfold consume. unfold NS at 1.
+    erewrite bind_R; [| apply (consume_n_at _ 1 [69]); [ exact H4 | reflexivity | cbn [List.length]; lia ] ].
+    cbn [hd0]. chs. cbn [Z.eqb Pos.eqb]. stsimpl.
+    unfold dec_level. rewrite bind_modify. stsimpl. unfold ret, NS. cbn [Z.sub Z.add Z.opp Z.pos_sub Pos.pred_double].
+    replace (pe + 19 + 1) with L by (unfold pe; lia). reflexivity. }
+  fold (NS 2 None 1 true). erewrite bind_R; [| exact Hname ].
+  cbn [Z.ltb Z.compare].
+  assert (Hend : At L []).
+  { replace L with (pe + 19 + Z.of_nat (List.length [69])) by (unfold pe; cbn [List.length]; lia).
+    apply (At_app _ [69] []). exact H4. }
+  (* the type loop stops at once: end of string *)
+  erewrite bind_R.
+  2:{ change (run s 0 (S (S F3)) LEncTypes) with (enc_types_loop s 0 (run s 0 (S F3))).
+      unfold enc_types_loop, NS. rewrite bind_eof. stsimpl. rwt (L >=? L).
+      erewrite bind_R; [| apply (curr_at _ []); [ exact Hend | reflexivity ] ].
+      cbn [Z.eqb orb Pos.eqb]. reflexivity. }
+  erewrite bind_R; [| apply (curr_at _ []); [ exact Hend | reflexivity ] ].
+  cbn [hd0]. chs. cbn [Z.eqb]. rewrite bind_ret.
+  erewrite bind_R; [| apply (curr_at _ []); [ exact Hend | reflexivity ] ].
+  cbn [hd0 Z.eqb]. rewrite bind_ret.
+  unfold dec_level. rewrite bind_modify. stsimpl. reflexivity.
+Qed.
+
+(* ---- unscoped function names: _Z <source-name> <builtin type>* *)
+Lemma unscoped_encoding_at : forall id params F,
+  s = str "_Z" ++ src id ++ params ->
+  ident_okb id = true -> forallb is_builtin params = true -> L <= INT_MAX ->
+  (List.length params + 8 <= F)%nat ->
+  run s 0 F FEncoding (st0 L) = R 0 (NS L (Some id) 0 false).
+Proof.
+  intros id params F Hs Hid Hpar HL HF.
+  assert (H0 : At 0 (95 :: 90 :: src id ++ params)).
+  { unfold At. split; [ lia |]. split; [ unfold suffix; cbn [Z.add Z.to_nat skipn]; rewrite Hs; reflexivity |].
+    unfold flen. rewrite Hs. cbn [str app List.length]. lia. }
+  pose proof (At_cons _ _ _ H0) as H1. pose proof (At_cons _ _ _ H1) as H2. cbn [Z.add Pos.add] in H1, H2.
+  assert (HLen : L = 2 + Z.of_nat (List.length (src id)) + Z.of_nat (List.length params)).
+  { destruct H0 as [_ [_ HH]]. cbn [List.length] in HH. rewrite app_length in HH. lia. }
+  pose proof (src_hd_digit id params Hid) as Hd.
+  destruct (src id ++ params) as [| d tl] eqn:E.
+  { exfalso. unfold src in E. destruct (hd0_dec_digit _ (id ++ params) (ident_len id Hid)) as [_ Hne].
+    rewrite <- app_assoc in E. destruct (dec (Z.of_nat (List.length id))); [ contradiction | discriminate ]. }
+  cbn [hd0] in Hd.
+  destruct F as [| F1]; [ lia |]. destruct F1 as [| F2]; [ lia |]. destruct F2 as [| F3]; [ lia |].
+  change (run s 0 (S (S (S F3))) FEncoding) with (dd_encoding s 0 (run s 0 (S (S F3)))).
+  unfold dd_encoding, st0.
+  pose proof (At_lt _ _ _ H0) as HL0.
+  rewrite bind_eof. stsimpl. rwf (0 >=? L). cbn [Z.eqb].
+  rewrite bind_gets. stsimpl. cbn [Z.eqb].
+  erewrite bind_R; [| apply (consume_n_at _ 2 (95 :: 90 :: d :: tl)); [ exact H0 | reflexivity | cbn [List.length]; lia ] ].
+  stsimpl. cbn [Z.add]. unfold inc_level. rewrite bind_modify. stsimpl. cbn [Z.add].
+  erewrite bind_R; [| apply (curr_at _ (d :: tl)); [ exact H2 | reflexivity ] ].
+  cbn [hd0]. chs. rwf (d =? 84). rwf (d =? 71). cbn [orb].
+  set (pe := 2 + Z.of_nat (List.length (src id))).
+  assert (Hpe : At pe params).
+  { unfold pe. rewrite <- E in H2. apply (At_app _ (src id)). exact H2. }
+  assert (HpI : hd0 params <> 73 /\ hd0 params <> 66).
+  { destruct params as [| c ps]; [ cbn; lia |]. cbn [forallb] in Hpar. apply andb_prop in Hpar. destruct Hpar as [Hc _].
+    unfold is_builtin in Hc. cbn in Hc. cbn [hd0].
+    repeat (apply orb_prop in Hc; destruct Hc as [Hc | Hc]); try discriminate; apply Z.eqb_eq in Hc; subst c; split; lia. }
+  destruct HpI as [HpI HpB].
+  assert (Hnd : no_dollar (id ++ params)).
+  { apply Forall_app. split; [ apply no_dollar_ident; exact Hid | apply no_dollar_params; exact Hpar ]. }
+  assert (Hname : run s 0 (S (S F3)) FName (NS 2 None 1 true) = R 0 (NS pe (Some id) 1 false)).
+  { change (run s 0 (S (S F3)) FName) with (dd_name s 0 (run s 0 (S F3))).
+    unfold dd_name. unfold NS at 1.
+    erewrite bind_R; [| apply (curr_at _ (d :: tl)); [ exact H2 | reflexivity ] ].
+    pose proof (At_lt _ _ _ H2).
+    rewrite bind_eof. stsimpl. rwf (2 >=? L). cbn [hd0]. chs. cbn [Z.eqb].
+    rwf (d =? 78). rwf (d =? 90). rwf (d =? 83).
+    fold (NS 2 None 1 true). rewrite <- E in H2.
+    erewrite bind_R; [| apply (unq_src _ 2 None 1 true id params); assumption ].
+    cbn [Z.ltb Z.compare]. unfold NS at 1. fold pe.
+    erewrite bind_R; [| apply (curr_at _ params); [ exact Hpe | reflexivity ] ].
+    rwf (hd0 params =? 73). reflexivity. }
+  fold (NS 2 None 1 true). erewrite bind_R; [| exact Hname ].
+  cbn [Z.ltb Z.compare].
+  erewrite bind_R.
+  2:{ replace (S (S F3)) with (List.length params + S (S (S (F3 - List.length params - 1))))%nat by lia.
+      apply (enc_types_builtin params _ pe _ Hpe Hpar). }
+  assert (HpeL : pe + Z.of_nat (List.length params) = L) by (unfold pe; lia).
+  rewrite HpeL.
+  assert (Hend : At L []).
+  { rewrite <- HpeL. replace params with (params ++ []) in Hpe by apply app_nil_r. apply (At_app _ params []). exact Hpe. }
+  unfold NS at 1.
+  erewrite bind_R; [| apply (curr_at _ []); [ exact Hend | reflexivity ] ].
+  cbn [hd0]. chs. cbn [Z.eqb]. rewrite bind_ret.
+  erewrite bind_R; [| apply (curr_at _ []); [ exact Hend | reflexivity ] ].
+  cbn [hd0 Z.eqb]. rewrite bind_ret.
+  unfold dec_level. rewrite bind_modify. stsimpl. reflexivity.
+Qed.
 End Walk.
 
 (* ================================================================ the formal mangler and the theorem *)
@@ -853,44 +1106,6 @@ Proof.
     replace (Z.to_nat (0 + Z.of_nat (List.length P) + 1 + 1)) with (List.length P + 2)%nat by lia.
     rewrite skipn_app. rewrite skipn_all2 by lia.
     replace (List.length P + 2 - List.length P)%nat with 2%nat by lia. reflexivity.
-Qed.
-
-(* ---- no '$' in a mangled name of the subset *)
-Lemma no_dollar_digits : forall ds, Forall (fun c => isdigit c = true) ds -> no_dollar ds.
-Proof. intros ds H. eapply Forall_impl; [| exact H ]. intros c Hc. apply isdigit_range in Hc. lia. Qed.
-Lemma no_dollar_ident : forall id, ident_okb id = true -> no_dollar id.
-Proof.
-  intros id H. unfold ident_okb in H. apply andb_prop in H. destruct H as [H _].
-  apply andb_prop in H. destruct H as [H _]. apply andb_prop in H. destruct H as [_ H].
-  rewrite forallb_forall in H. apply Forall_forall. intros x Hx. specialize (H x Hx).
-  unfold idchar, isdigit, isupper, islower in H. lia.
-Qed.
-Lemma no_dollar_src : forall id, ident_okb id = true -> no_dollar (src id).
-Proof.
-  intros id H. unfold src. apply Forall_app. split; [| apply no_dollar_ident; exact H ].
-  destruct (dec_spec _ (ident_len id H)) as [ds [E1 [E2 _]]]. rewrite E1. apply no_dollar_digits. exact E2.
-Qed.
-Lemma no_dollar_srcs : forall cs, Forall (fun id => ident_okb id = true) cs -> no_dollar (srcs cs).
-Proof.
-  induction cs as [| id cs IH]; intros H; [ constructor |].
-  inversion H; subst. unfold srcs. cbn [map List.concat]. apply Forall_app. split.
-  - apply no_dollar_src. assumption.
-  - apply IH. assumption.
-Qed.
-Lemma no_dollar_last : forall l, last_okb l = true -> no_dollar (last_enc l).
-Proof.
-  intros l H. destruct l as [| kd | kd | c0 c1]; cbn [last_enc last_okb] in *.
-  - constructor.
-  - apply isdigit_range in H. repeat constructor; lia.
-  - apply isdigit_range in H. repeat constructor; lia.
-  - apply andb_prop in H. destruct H as [H _]. apply andb_prop in H. destruct H as [H1 H2].
-    unfold op_okb in H1. apply andb_prop in H1. destruct H1 as [H1 _]. apply andb_prop in H1. destruct H1 as [H1 _].
-    unfold islower, isupper in *. repeat constructor; lia.
-Qed.
-Lemma no_dollar_params : forall ps, forallb is_builtin ps = true -> no_dollar ps.
-Proof.
-  intros ps H. rewrite forallb_forall in H. apply Forall_forall. intros x Hx.
-  destruct (builtin_facts x (H x Hx)) as [_ [_ [_ [_ [_ [_ [_ [_ [_ [_ [_ [_ [_ F]]]]]]]]]]]]]. exact F.
 Qed.
 
 Lemma srcs_length : forall cs, Forall (fun id => ident_okb id = true) cs ->
@@ -961,4 +1176,94 @@ Example roundtrip_examples :
     simple_name d_dtor = str "v8::internal::Heap::~Heap" /\
   decl_okb d_op = true /\ mangle d_op = str "_ZN2ns3ClspLEi" /\ simple_name d_op = str "ns::Cls::operator+=" /\
   decl_okb d_fn = true /\ mangle d_fn = str "_ZN3ABC3fooEv" /\ simple_name d_fn = str "ABC::foo".
+Proof. vm_compute. repeat split; reflexivity. Qed.
+
+(* ================================================================ Rust legacy names and unscoped names *)
+Lemma demangle_of_encoding : forall s o,
+  prefix_of prefix_str s = false -> mangled_form s = true ->
+  run s 0 (fuel_of s) FEncoding (st0 (flen s)) = R 0 (NS s (flen s) (Some o) 0 false) ->
+  demangle s = Str o.
+Proof.
+  intros s o Hpre Hm E. unfold demangle, demangle_fuel. rewrite Hm, Hpre. cbn [negb].
+  replace (Z.of_nat (List.length s) - 0) with (flen s) by (unfold flen; lia).
+  rewrite E. cbn [of_res]. unfold NS. stsimpl. cbn [Z.ltb Z.compare Z.eqb orb negb].
+  rwt (flen s >=? flen s). reflexivity.
+Qed.
+
+Definition rust_mangle (a : list Z) (cs : list (list Z)) (h : list Z) : list Z :=
+  str "_ZN" ++ srcs (a :: cs) ++ str "17" ++ h ++ [69].
+Definition rust_okb (a : list Z) (cs : list (list Z)) (h : list Z) : bool :=
+  forallb ident_okb (a :: cs) && hash_okb h && (Z.of_nat (List.length (rust_mangle a cs h)) <=? INT_MAX).
+
+Lemma no_dollar_hash : forall h, hash_okb h = true -> no_dollar h.
+Proof.
+  intros h H. unfold hash_okb in H. apply andb_prop in H. destruct H as [Hl Hh]. apply Nat.eqb_eq in Hl.
+  destruct h as [| h0 r]; [ discriminate |]. unfold hash17 in Hh.
+  apply andb_prop in Hh. destruct Hh as [Hh _]. apply andb_prop in Hh. destruct Hh as [H0 Hx].
+  cbn [List.length] in Hl. rewrite firstn_all2 in Hx by lia.
+  constructor.
+  - apply Z.eqb_eq in H0. change (ch "h") with 104 in H0. lia.
+  - rewrite forallb_forall in Hx. apply Forall_forall. intros x Hin. specialize (Hx x Hin).
+    unfold isxdigit, isdigit in Hx. lia.
+Qed.
+
+Theorem roundtrip_rust : forall a cs h, rust_okb a cs h = true ->
+  demangle (rust_mangle a cs h) = Str (join_sep (a :: cs)).
+Proof.
+  intros a cs h H. unfold rust_okb in H.
+  apply andb_prop in H. destruct H as [H HL]. apply andb_prop in H. destruct H as [Hids Hh].
+  assert (Hok : Forall (fun id => ident_okb id = true) (a :: cs)).
+  { apply Forall_forall. rewrite forallb_forall in Hids. exact Hids. }
+  set (s := rust_mangle a cs h) in *.
+  assert (Hs : s = str "_ZN" ++ srcs (a :: cs) ++ str "17" ++ h ++ [69]) by reflexivity.
+  assert (Hnd : no_dollar (srcs (a :: cs) ++ str "17" ++ h ++ [69])).
+  { apply Forall_app. split; [ apply no_dollar_srcs; exact Hok |].
+    apply Forall_app. split; [ cbn; repeat constructor; lia |].
+    apply Forall_app. split; [ apply no_dollar_hash; exact Hh | repeat constructor; lia ]. }
+  assert (HLs : flen s <= INT_MAX) by (unfold flen; apply Z.leb_le; exact HL).
+  assert (Hfuel : (List.length (a :: cs) + 8 <= fuel_of s)%nat).
+  { unfold fuel_of. rewrite Hs. cbn [str]. repeat rewrite app_length. cbn [List.length].
+    pose proof (srcs_length _ Hok). cbn [List.length] in *. lia. }
+  apply demangle_of_encoding.
+  - rewrite Hs. reflexivity.
+  - unfold mangled_form, stripped. rewrite Hs. reflexivity.
+  - apply (rust_encoding_at s a cs h (fuel_of s) Hs Hok Hh Hnd HLs Hfuel).
+Qed.
+
+Definition unscoped_mangle (id params : list Z) : list Z := str "_Z" ++ src id ++ params.
+Definition unscoped_okb (id params : list Z) : bool :=
+  ident_okb id && forallb is_builtin params && (Z.of_nat (List.length (unscoped_mangle id params)) <=? INT_MAX).
+
+Theorem roundtrip_unscoped : forall id params, unscoped_okb id params = true ->
+  demangle (unscoped_mangle id params) = Str id.
+Proof.
+  intros id params H. unfold unscoped_okb in H.
+  apply andb_prop in H. destruct H as [H HL]. apply andb_prop in H. destruct H as [Hid Hpar].
+  set (s := unscoped_mangle id params) in *.
+  assert (Hs : s = str "_Z" ++ src id ++ params) by reflexivity.
+  assert (HLs : flen s <= INT_MAX) by (unfold flen; apply Z.leb_le; exact HL).
+  assert (Hfuel : (List.length params + 8 <= fuel_of s)%nat).
+  { unfold fuel_of. rewrite Hs. cbn [str]. repeat rewrite app_length. cbn [List.length]. lia. }
+  (* the first character after _Z is a digit: neither G (prefix) nor anything special *)
+  pose proof (src_hd_digit id params Hid) as Hd.
+  destruct (src id ++ params) as [| d tl] eqn:E.
+  { exfalso. unfold src in E. destruct (hd0_dec_digit _ (id ++ params) (ident_len id Hid)) as [_ Hne].
+    rewrite <- app_assoc in E. destruct (dec (Z.of_nat (List.length id))); [ contradiction | discriminate ]. }
+  cbn [hd0] in Hd.
+  apply demangle_of_encoding.
+  - rewrite Hs. reflexivity.
+  - unfold mangled_form, stripped.
+    assert (Hp : prefix_of prefix_str s = false).
+    { rewrite Hs. reflexivity. }
+    rewrite Hp. rewrite Hs. reflexivity.
+  - rewrite <- E in *. apply (unscoped_encoding_at s id params (fuel_of s) Hs Hid Hpar HLs Hfuel).
+Qed.
+
+Example roundtrip_examples2 :
+  rust_okb (str "foo") [str "bar"] (str "h05af221e174051e9") = true /\
+  rust_mangle (str "foo") [str "bar"] (str "h05af221e174051e9") = str "_ZN3foo3bar17h05af221e174051e9E" /\
+  join_sep [str "foo"; str "bar"] = str "foo::bar" /\
+  unscoped_okb (str "main_loop") (str "iPc") = false /\
+  unscoped_okb (str "main_loop") (str "ic") = true /\
+  unscoped_mangle (str "main_loop") (str "ic") = str "_Z9main_loopic".
 Proof. vm_compute. repeat split; reflexivity. Qed.
